@@ -156,7 +156,8 @@ def check_d3_d5(ctx) -> None:
     f = repo.method('TDPReservoir', 'Calculate')
     st = [s for s in f.node.body if isinstance(s, ast.Assign) and norm(s.targets[0]) == f'{R}.Tresoutput.value']
     ctx.require(len(st) == 1, 'TDPReservoir.Calculate: Tresoutput definition not found')
-    v = _tr(st[0].value)
+    from gxstat.inline import inline_sequential
+    v = _tr(inline_sequential(st[0].value, st[0]))          # over named intermediates
     t, dd = f'{R}.timevector.value', f'{R}.drawdp.value'
     want = (Rat.const(1) - a(dd) * a(t)) * (a(TROCK) - a(TINJ)) + a(TINJ)
     ctx.check(v.equals(want), 'D5', 'TDPReservoir.Calculate/formula', f'{f.module.rel}:{st[0].lineno}',
